@@ -112,7 +112,7 @@ impl Scenario for Chain {
         if tier == "thorough" {
             3_000_000
         } else {
-            250_000
+            200_000
         }
     }
 
